@@ -116,6 +116,11 @@ deriving DecidableEq, Repr
 def call (cfg : Cfg) (outs : Nat → Outcome) : Except Err Result :=
   if cfg.limit = 0 then .error .limitAssertion else .ok (run cfg outs)
 
+/-- several calls through one wrapper object, however their executions overlap (concurrent tasks, recursion through the
+wrapper): the wrapper object holds nothing mutable – `limit`, `delay`, `catching` are only read, `attempt` is a local
+variable of each call – so every call is `call` on its own outcome sequence -/
+def callMany (cfg : Cfg) (outss : List (Nat → Outcome)) : List (Except Err Result) := outss.map (call cfg)
+
 /-- pauses actually slept, in order -/
 def pauses : List Ev → List Nat
   | [] => []
